@@ -1619,7 +1619,7 @@ func TestVerifC16(t *testing.T) {
 		if b.Drive != "" {
 			return []string{b.Drive}
 		}
-		if verifx.Thorough() {
+		if verifx.Thorough() && (b.Mode != "shared" || b.Idx%2 == 0) {
 			return []string{"lock", "free"}
 		}
 		if (int64(b.Idx)+seed)%2 == 0 {
